@@ -4,7 +4,7 @@ From Qv Require Import Common.Bytes Gen.GenQrdata Model.Mime Model.QrData Model.
   Spec.SmtpDataSpec Spec.DeliverSpec Proofs.QrPlainProofs Proofs.QrNeedRecodeProofs Proofs.QrPlainSpecProofs
   Proofs.QrQpProofs Proofs.QrQpDecodeProofs Proofs.QrWrapLineProofs Proofs.QrWireProofs
   Proofs.QrFoldProofs Proofs.QrPhaseProofs Proofs.MimeTotalProofs Proofs.QrHeaderTotalProofs Proofs.QrScanProofs
-  Proofs.QrWrapHeaderProofs Proofs.QrPiecesProofs.
+  Proofs.QrWrapHeaderProofs Proofs.QrPiecesProofs Proofs.QrSendQpTotalProofs.
 Require Import Lia.
 
 (** wrap_header on a header window, as a composition step *)
@@ -125,6 +125,7 @@ Definition hdr_done (st : St) (r : Run (nat * MpRes)) : Prop :=
   | Die _ st' => st' = st
   | Done (h, mp) st' =>
       1 <= h <= len /\
+      (exists ls ll, is_multipart m ls ll = Ok mp) /\
       (forall bs bl, mp = MpYes bs bl -> 1 <= bl <= BOUNDARY_MAX /\ bs + bl <= length m) /\
       existsb is8 (sub m b h) = false /\
       longrun 0 (skipn h w) = longrun 0 (skipn (hpos 0 w) w) /\
@@ -255,7 +256,7 @@ Proof.
   rewrite Emp. cbn [bind].
   destruct (hdr_match h mp cenc body_recode st Hg PW P1 P2) as (r & Er & Hr).
   exists r. split; [exact Er|]. destruct r as [[h' mp'] st'|why st']; [|exact Hr].
-  destruct Hr as (-> & -> & t & Gt & Ht). unfold hdr_done. split; [exact Hh|]. split.
+  destruct Hr as (-> & -> & t & Gt & Ht). unfold hdr_done. split; [exact Hh|]. split; [eauto|]. split.
   - intros bs bl ->. destruct (Hmp bs bl eq_refl) as (Hbl & Hbs & Hbe). split; [exact Hbl|].
     destruct Hct as [Hz|(_ & B & _)]; [rewrite Hz in Hbe; lia|lia].
   - split; [exact H8|]. split; [exact Hlr|]. exists t. split; assumption.
@@ -413,6 +414,47 @@ Proof.
       apply hdr_scan_case; try assumption.
       * rewrite Ew. exact He.
       * intros Hnz. apply (qh_scan_mono m b len _ 0 (0, 0) (0, 0) hd o' ct' ce' E Hnz); intros Hn; cbn in Hn; contradiction.
+Qed.
+
+(** an entity that is no multipart: header and body go out as legal lines, or nothing is sent *)
+Lemma entity_nomulti fu st : byte_list m -> good ext8 D0 st [] ->
+  (forall ls ll bs bl, is_multipart m ls ll <> Ok (MpYes bs bl)) ->
+  exists res, send_qp (S fu) m helo ext8 b len st = Ok res /\
+    match res with Die _ st' => st' = st | Done _ st' => exists t, good ext8 D0 st' t end.
+Proof.
+  intros Hb Hg Hnm. rewrite send_qp_S. rewrite (need_recode_ok m b len Hw). cbn [bind].
+  destruct (Nat.eqb_spec len 0) as [H0|_]; [lia|]. cbv zeta. fold w.
+  set (rf := nr_fun w flags0 0 false).
+  destruct (qp_header_spec (f8 rf || fline rf) st Hg) as (res & E & Hd). rewrite E.
+  destruct res as [[h mp] st1|why st1]; cbn [bindR].
+  2: { eexists. split; [reflexivity|]. exact Hd. }
+  destruct Hd as (Hh & (ls & ll & Emp) & _ & H8 & Hlr & t & Gt & Ht).
+  destruct (Nat.ltb_spec len h) as [Hbad|_]; [lia|].
+  assert (Body : exists res,
+            (if f8 rf || fline rf then liftS (recode_qp m (b + h) (len - h) st1)
+             else liftS (send_plain m (b + h) (len - h) st1)) = Ok res /\
+            match res with Die _ st' => st' = st | Done _ st' => exists t, good ext8 D0 st' t end).
+  { destruct (Nat.eq_dec h len) as [Ehl|Nhl].
+    - (* no body *)
+      replace (len - h) with 0 by lia. unfold recode_qp, send_plain, liftS. cbn [Nat.eqb bind].
+      destruct (f8 rf || fline rf); (eexists; split; [reflexivity|]; exists t; exact Gt).
+    - assert (Et : t = []) by (apply Ht; lia). subst t.
+      destruct (f8 rf || fline rf) eqn:Ebr; unfold liftS.
+      + destruct (qp_piece ext8 m (b + h) (len - h) D0 st1) as (st2 & t2 & E2 & G2); [lia|exact Hb|exact Gt|].
+        rewrite E2. cbn [bind]. eexists. split; [reflexivity|]. exists t2. exact G2.
+      + apply Bool.orb_false_elim in Ebr as [E8 El].
+        destruct (nr_fun_facts w flags0 0 false) as [F8 _]. cbv zeta in F8. fold rf in F8. rewrite E8 in F8.
+        cbn [f8 flags0 orb] in F8. symmetry in F8.
+        destruct (nr_phase w F8 flags0 0 false eq_refl) as [_ Fl]. fold rf in Fl. rewrite El in Fl.
+        cbn [fline flags0 orb] in Fl. symmetry in Fl.
+        assert (Esuf : sub m (b + h) (len - h) = skipn h w).
+        { rewrite sub_suffix by lia. f_equal. apply firstn_all2. rewrite w_len. lia. }
+        destruct (plain_piece ext8 m (b + h) (len - h) D0 st1) as (st2 & t2 & E2 & G2 & _); [lia| |exact Gt|].
+        * rewrite Esuf. unfold must_recode. rewrite <- longrun_has_long, Hlr, Fl.
+          change (has_8bit (skipn h w)) with (existsb is8 (skipn h w)). rewrite (existsb_skipn is8 w h F8).
+          now rewrite Bool.andb_false_r.
+        * rewrite E2. cbn [bind]. eexists. split; [reflexivity|]. exists t2. exact G2. }
+  destruct mp as [bs bl| | |why]; [exfalso; apply (Hnm ls ll bs bl Emp)|exact Body|exact Body|exact Body].
 Qed.
 
 End Entity.
